@@ -29,7 +29,7 @@ type c15Case struct {
 var c15TreeCfg = h.TreeCfg{
 	MaxEntries: 7, MaxDepth: 3, Names: []string{"a", "b", "c", "ab"},
 	Kinds:     []h.Kind{h.KFile, h.KFile, h.KFile, h.KSymlink, h.KFifo},
-	Hardlinks: true, SymTargets: []string{"zz", "a", "../b", "/c"},
+	Hardlinks: true, SymTargets: []string{"zz", "a", "../b", "/c", "./a", "b/", "a//b", "zz/../a"}, UncleanTargets: true,
 }
 
 func genC15(t *rapid.T) *c15Case {
@@ -53,7 +53,31 @@ func genC15(t *rapid.T) *c15Case {
 	case k <= 3:
 		c.SrcArg = c.Src.Nodes[rapid.IntRange(0, len(c.Src.Nodes)-1).Draw(t, "srcnode")].Path
 		// follow-links: the argument names a symbolic link and stands for what it points to
-		if rapid.Bool().Draw(t, "follow") {
+		// (targets that step back over a name - "x/../a" - are resolved lexically by the
+		// library and by the kernel's rules in the model: C18 lists that difference; such
+		// trees are copied without follow-links here)
+		lexical := false
+		for _, n := range c.Src.Nodes {
+			if n.Kind == h.KSymlink {
+				named := false
+				for _, cm := range strings.Split(n.Target, "/") {
+					switch cm {
+					case "", ".":
+					case "..":
+						if named {
+							lexical = true
+						}
+					default:
+						named = true
+					}
+				}
+				// (likewise a trailing separator, which the kernel takes as "must be a directory")
+				if strings.HasSuffix(n.Target, "/") || strings.HasSuffix(n.Target, "/.") {
+					lexical = true
+				}
+			}
+		}
+		if rapid.Bool().Draw(t, "follow") && !lexical {
 			c.Opts.Follow = true
 			var links []string
 			for _, n := range c.Src.Nodes {
@@ -390,7 +414,7 @@ type c15UnionCase struct {
 
 func genC15Union(t *rapid.T) *c15UnionCase {
 	cfg := c15TreeCfg
-	cfg.Hardlinks = false
+	cfg.Hardlinks = true // (content and verdict are compared, not the link topology)
 	c := &c15UnionCase{Src: h.GenTree(t, cfg, "src"), Dst: h.GenTree(t, c15TreeCfg, "dst")}
 	c.Opts.Wildcards = true
 	c.Opts.DirContents = rapid.Bool().Draw(t, "dircontents")
